@@ -2,6 +2,17 @@
 use super::asmrun::*;
 use crate::util::*;
 
+/// Token-level texts: whatever the parser accepts must print to something it accepts again as the same statements — also for spellings the
+/// program generators avoid (labels that look like mnemonics, registers or literals; colons; several labels; odd operand kinds).
+const TOKENS: [&str; 20] = ["OUT", "out:", "LD", "R0", ",", "LOOP", "LOOP:", ".fill", "x10", "\n", "ADD", "#1", "IN:", "Ret", "BRnzp", "R8", "xyz", ".stringz", "\"s\"", "HALT"];
+fn token_text(mut i: u64, len: usize) -> String { let mut v = vec![]; for _ in 0..len { v.push(TOKENS[(i % 20) as usize]); i /= 20; } v.join(" ") }
+fn check_text(text: &str) -> Option<(String, String)> {
+    let ast = match catch(|| lc3_ensemble::parse::parse_ast(text)) { Ok(Ok(a)) => a, _ => return None };
+    let mut out = vec![];
+    super::asmcheck::check_print_reparse(&ast, &mut out);
+    out.into_iter().find(|f| f.prop == "C36").map(|f| (f.sig, format!("{} (source text {text:?})", f.detail)))
+}
+
 pub fn run(ctx: &Ctx) -> Report {
     let mut rep = Report::new("every statement obtained by parsing the L1 single-statement programs (all templates and operand boundary values), the 1-2 statement sequences with 0-2 labels, label/base/fence programs and string literals over printable ASCII, TAB, LF, CR, NUL; each printed with Display and reparsed, compared through a span-insensitive projection. non-trivial = every program parsed (each contributes >=2 statements)");
     let plain = vec![(0u64, DEFAULT_SECONDARY)];
@@ -17,8 +28,21 @@ pub fn run(ctx: &Ctx) -> Report {
         Plan { fam: "BIG", styles: plain.clone(), debug: vec![false], stride: 1 },
     ];
     run_plans(ctx, &mut rep, "C36", &plans, &|i| i.parsed);
+    for len in 1..=ctx.pick(4usize, 5usize) {
+        let r = sweep(ctx, 20u64.pow(len as u32), 1024, |i, acc| {
+            let t = token_text(i, len);
+            acc.evals += 1; acc.count("token_texts", 1);
+            if catch(|| lc3_ensemble::parse::parse_ast(&t)).map(|r| r.is_ok()).unwrap_or(false) { acc.count("token_texts_accepted", 1); acc.nontrivial += 1; }
+            if let Some((sig, d)) = check_text(&t) { acc.violation(sig, format!("tok:{}", hex(t.as_bytes())), d); }
+        });
+        rep.absorb(r);
+    }
+    rep.require(rep.acc.get("token_texts_accepted") > 500, "token-level texts were accepted and printed");
     rep.require(rep.acc.nontrivial > 10_000, "many statements were printed and reparsed");
     rep.assume("string literals restricted to printable ASCII, TAB, LF, CR, NUL (property precondition); other literals are skipped");
     rep
 }
-pub fn replay(case: &str) -> Option<String> { replay_case("C36", case) }
+pub fn replay(case: &str) -> Option<String> {
+    if let Some(h) = case.strip_prefix("tok:") { return check_text(&String::from_utf8(unhex(h)?).ok()?).map(|x| format!("[{}] {}", x.0, x.1)); }
+    replay_case("C36", case)
+}
